@@ -916,7 +916,25 @@ def blocks_param(tier):
                 yield tr_case('param', PARAM_XSL, DOC1, 'name(%s)' % vn, en, [B('p:%s=1' % vv)])
                 yield tr_case('param', PARAM_XSL, DOC1, 'value(%s)' % vn, en, [B('p:p=%s' % vv)])
     out.append(('param', 2 * len(NASTY), names))
+
+    # variable references inside a parameter expression: the expression is evaluated while the top-level variables are being
+    # pushed, with none, one or two of them already there (the token alphabet above has no '$')
+    def varrefs():
+        sheets = [('first', PARAM_XSL),
+                  ('after-variable', PARAM_XSL.replace('<xsl:param name="p"', '<xsl:variable name="v" select="7"/><xsl:param name="p"', 1)),
+                  ('between', PARAM_XSL.replace('<xsl:param name="p"', '<xsl:variable name="v" select="7"/><xsl:variable name="w" select="/r"/><xsl:param name="p"', 1)
+                   .replace('<xsl:template match="/">', '<xsl:variable name="z" select="$p"/><xsl:param name="q" select="2"/><xsl:template match="/">', 1))]
+        for lab, x in sheets:
+            assert x != PARAM_XSL or lab == 'first'
+            for e in VARREFS:
+                for en in entries:
+                    yield tr_case('param', x, DOC1, 'varref(%s:%s)' % (lab, e), en, [B('p:p=' + e)])
+                    yield tr_case('param', x, DOC1, 'varref2(%s:%s)' % (lab, e), en, [B('p:q=' + e), B('p:p=1')])
+    out.append(('param', 3 * len(VARREFS) * 2 * len(entries), varrefs))
     return out
+
+
+VARREFS = ['$p', '$q', '$v', '$w', '$z', '$nosuch', '$p + 1', 'count($w)', '$v | $w', '$w/e', '$p[1]', "concat($v, $nosuch)", '$ p', '$p:p', '$', '$1']
 
 
 OK_XSL = S('<xsl:output omit-xml-declaration="yes"/><xsl:key name="k" match="i" use="@g"/><xsl:template match="/"><o><xsl:value-of select="count(key(\'k\',\'x\'))"/>'
